@@ -214,10 +214,18 @@ func (g *gen) history(malformed bool, selfs ...string) input {
 	var in input
 	in.Self = self
 	n := 1 + g.r.Intn(12)
+	var lastArgs []tplArg // the argument set of the previous template of this history
 	for i := 0; i < n; i++ {
 		p := g.path(pool, self)
 		var o opIn
-		switch k := g.r.Intn(20); {
+		switch k := g.r.Intn(22); {
+		case k >= 20: // a template over an argument set (half of the time the set the previous template was given)
+			var prev []tplArg
+			if lastArgs != nil && g.r.Chance(50) {
+				prev = lastArgs
+			}
+			o = g.tplOp(pool, self, prev, len(selfs) > 0)
+			lastArgs = o.TArgs
 		case k < 3:
 			o = opIn{K: "add", Path: p}
 		case k < 14:
@@ -300,6 +308,7 @@ func (prop) Generate(r *core.RNG, tier string) []json.RawMessage {
 		{Self: "example.com/m", Ops: []opIn{{K: "ref", Via: "id", Path: "example.com/o", Name: "List", Args: []node{{Path: "example.com/p/o", Name: "Item"}, {Name: "int"}, {Path: "example.com/m", Name: "Own"}}}}},
 		{Self: "example.com/m", Ops: []opIn{{K: "lit", Shape: "map", Elems: []node{{Path: "time", Name: "Duration"}, {Path: "example.com/time", Name: "Time", Args: []node{{Path: "a.com/go", Name: "T"}}}}}}},
 	}
+	fixed = append(fixed, tplCorners()...)
 	for _, f := range fixed {
 		out = append(out, marshal(f))
 	}
